@@ -736,3 +736,39 @@ Theorem C10_lim_entry_nonvacuous :
    snd (estep false s (L (Resume 1))) = RCancelled /\ snd (estep false s (SpinReturn 1)) = RCancelled).
 Proof. exact (conj f53_head ex_entry_hyp). Qed.
 Print Assumptions C10_lim_entry_nonvacuous.
+
+(* ---- tie T for the limiter's entry check (QA audit follow-up): what LimiterEntry.estep does to a call made in an
+        already cancelled scope, in terms of the entry segment regenerated from the source ---- *)
+From AV Require Import LimiterEntryTie.
+
+Theorem C10_tie_lim_check_first :
+  exists body, lim_acquire_on_behalf_of_entry = SSeq SCkIf body /\
+    forall t l g k, l_fresh l = true -> l_canc l = false ->
+      exec lim_acquire_on_behalf_of_entry t l g k = exec body t l g k.
+Proof. exact check_first. Qed.
+Print Assumptions C10_tie_lim_check_first.
+
+Theorem C10_tie_lim_entry_cancelled_is_generated : forall s t b,
+  spin s t = None -> phase_of (lim s) t = Idle ->
+  (exists l, exec lim_acquire_on_behalf_of_entry t (loc_entry_cancelled (Some b)) log0 (core (lim s)) =
+             (l, log0, core (lim s), OCancelled)) /\
+  lim (fst (estep false (fst (estep false s (EnterCancelled t b))) (SpinCancel t))) = lim s /\
+  snd (estep false (fst (estep false s (EnterCancelled t b))) (SpinCancel t)) = RCancelled.
+Proof. exact entry_cancelled_is_generated. Qed.
+Print Assumptions C10_tie_lim_entry_cancelled_is_generated.
+
+Theorem C10_tie_lim_spin_return_is_generated : forall v s t b,
+  ereach v s -> spin s t = Some b -> ckmust s t = false -> phase_of (lim s) t = Idle ->
+  estep false s (SpinReturn t) =
+  (let x := lift (lim s) t (KAcquire b)
+              (exec lim_acquire_on_behalf_of_entry t (loc_entry (Some b) None) log0 (core (lim s))) in
+   (unspin s (fst x) t, snd x)).
+Proof. exact spin_return_is_generated. Qed.
+Print Assumptions C10_tie_lim_spin_return_is_generated.
+
+Theorem C10_tie_lim_spin_return_nonvacuous :
+  let s := final (estep false) (einit (Some 1)) [EnterCancelled 1 1; L (AcqOnNowait 2 2)] in
+  ereach (Some 1) s /\ spin s 1 = Some 1 /\ ckmust s 1 = false /\ phase_of (lim s) 1 = Idle /\
+  snd (estep false s (SpinReturn 1)) = RBlocked /\ queue (lim (fst (estep false s (SpinReturn 1)))) = [(1, 0)].
+Proof. exact ex_spin_return_hyp. Qed.
+Print Assumptions C10_tie_lim_spin_return_nonvacuous.
